@@ -39,6 +39,19 @@
 (*            "failat" (an access touching an offset >= k fails)           *)
 (*            "strunc" / "sfail": the same through a plain io.Reader       *)
 (*                                                                         *)
+(* Stand-alone readers (cff.Read on a bare CFF stream, cmap.Decode,        *)
+(* gtab.Read, os2.Read, ... each on the bytes its own writer produced):    *)
+(*   the stream is ONE extent of L bytes, read front to back in pieces.    *)
+(*   A format may have legitimately optional tails: positions at which the *)
+(*   stream may end although the writer produced more (OS/2: the version 0 *)
+(*   core of 68 bytes, then 78, 86; a "loca" table is complete after any   *)
+(*   whole number of entries).  The set of such positions is part of the   *)
+(*   reader's contract (opt); everywhere else the law is                   *)
+(*     cut strictly inside the extent the writer produced  =>  error.      *)
+(*   SStep   one piece: a cut source that ends exactly at an optional      *)
+(*           position ends the read without error; an end inside a piece,  *)
+(*           or a source that fails, is an error                           *)
+(*                                                                         *)
 (* TLC checks for every layout, every k in 0..total, every mode and every  *)
 (* set of needed tables the accounting/propagation invariants below.       *)
 (***************************************************************************)
@@ -49,9 +62,10 @@ CONSTANTS MaxTables,  \* layouts have 1..MaxTables tables
           WModes,     \* subset of {"exact", "atomic", "short", "eager", "once", "eonce"}
           RModes,     \* subset of {"trunc", "failat", "strunc", "sfail"}
           Chunk,      \* tables are read in pieces of at most Chunk bytes
-          Probe       \* BOOLEAN: the reader probes the last byte of the last table
+          Probe,      \* BOOLEAN: the reader probes the last byte of the last table
+          SMaxLen     \* stand-alone streams have 1..SMaxLen bytes (0: side "s" not explored)
 
-VARIABLES side,   \* "w" | "r"
+VARIABLES side,   \* "w" | "r" | "s" (stand-alone reader: lens = <<L>>, need = set of optional end positions)
           lens,   \* the layout: sequence of table lengths (physical order)
           mode, k,
           need,   \* reader: class of every table: "dec" | "raw" | "skip"
@@ -94,11 +108,13 @@ RPlan == << Hdr(<<0, 6>>) >> \o [i \in 1..NT |-> Hdr(<<12 + 16 * (i - 1), 16>>)]
 
 Layouts == UNION {[1..c -> 0..MaxLen] : c \in 1..MaxTables}
 
-Init == /\ lens \in Layouts
-        /\ side \in (IF WModes = {} THEN {} ELSE {"w"}) \cup (IF RModes = {} THEN {} ELSE {"r"})
-        /\ mode \in (IF side = "w" THEN WModes ELSE RModes)
-        /\ k \in 0..Total
-        /\ need \in (IF side = "w" THEN {<<>>} ELSE [1..NT -> {"dec", "raw", "skip"}])
+Init == /\ side \in (IF WModes = {} THEN {} ELSE {"w"}) \cup (IF RModes = {} THEN {} ELSE {"r"})
+                      \cup (IF SMaxLen = 0 THEN {} ELSE {"s"})
+        /\ lens \in (IF side = "s" THEN {<<c>> : c \in 1..SMaxLen} ELSE Layouts)
+        /\ mode \in (CASE side = "w" -> WModes [] side = "r" -> RModes [] side = "s" -> {"trunc", "failat"})
+        /\ k \in 0..(IF side = "s" THEN lens[1] ELSE Total)
+        /\ need \in (CASE side = "w" -> {<<>>} [] side = "r" -> [1..NT -> {"dec", "raw", "skip"}]
+                       [] side = "s" -> SUBSET (1..(lens[1] - 1)))
         /\ pc = 1 /\ acc = 0 /\ n = 0 /\ err = FALSE /\ hit = FALSE /\ done = FALSE /\ loaded = FALSE
         /\ healed = FALSE
 
@@ -150,7 +166,28 @@ RReturn == /\ side = "r" /\ ~done /\ (Streaming => loaded) /\ pc > Len(RPlan)
            /\ done' = TRUE
            /\ UNCHANGED <<side, lens, mode, k, need, pc, acc, n, err, hit, loaded, healed>>
 
-Next == WStep \/ WReturn \/ RAll \/ RStep \/ RReturn
+---------------------------------------------------------------------------
+(* stand-alone reader of one stream of SL bytes; need = the optional end positions *)
+SL == lens[1]
+SCuts == {0, SL} \cup need \cup {c \in 1..SL : c % Chunk = 0}
+SStarts == SetToSortSeq(SCuts \ {SL}, <)                     \* piece i starts at SStarts[i] ...
+SEnd(o) == CHOOSE e \in SCuts : e > o /\ \A x \in SCuts : x > o => e <= x   \* ... and ends at the next cut
+
+SStep == /\ side = "s" /\ ~done /\ pc <= Len(SStarts)
+         /\ LET o == SStarts[pc]
+                e == SEnd(o)
+            IN  IF mode = "trunc" /\ k < SL /\ o = k /\ o \in need
+                  THEN done' = TRUE /\ UNCHANGED <<err, hit, pc>>               \* the optional tail is absent
+                ELSE IF e > k /\ k < SL
+                  THEN err' = TRUE /\ hit' = TRUE /\ done' = TRUE /\ pc' = pc
+                  ELSE pc' = pc + 1 /\ UNCHANGED <<err, hit, done>>
+         /\ UNCHANGED <<side, lens, mode, k, need, acc, n, loaded, healed>>
+
+SReturn == /\ side = "s" /\ ~done /\ pc > Len(SStarts)
+           /\ done' = TRUE
+           /\ UNCHANGED <<side, lens, mode, k, need, pc, acc, n, err, hit, loaded, healed>>
+
+Next == WStep \/ WReturn \/ RAll \/ RStep \/ RReturn \/ SStep \/ SReturn
 Spec == Init /\ [][Next]_vars
 
 ---------------------------------------------------------------------------
@@ -173,5 +210,12 @@ RStreamFail    == (RD /\ mode = "sfail" /\ k < Total) => err
 RIntactOK      == (RD /\ k = Total) => ~err
 \* a failing ReaderAt: rejected iff an access of the plan touches an offset >= k
 RFailNeeded    == (RD /\ mode = "failat") => (err <=> \E i \in 1..Len(RPlan) : Fails(RPlan[i]))
+\* stand-alone readers: a cut strictly inside the extent the writer produced is an error, except at
+\* the optional end positions of the format; a failing source is an error wherever it fails
+SD             == side = "s" /\ done
+SCutRejected   == (SD /\ mode = "trunc" /\ k < SL /\ k \notin need) => err
+SCutOptional   == (SD /\ mode = "trunc" /\ k \in need) => ~err
+SFailRejected  == (SD /\ mode = "failat" /\ k < SL) => err
+SIntactOK      == (SD /\ k = SL) => ~err
 Bounds         == acc >= 0 /\ acc <= Total /\ n >= 0 /\ pc >= 1
 =============================================================================
